@@ -132,7 +132,11 @@ if __name__ == "__main__":
             for r in ex.map(verify, args):
                 print(json.dumps(r)[:1500])
     elif mode == "detect":
+        checks = None
+        if args and args[0].startswith("--checks="):
+            checks = args[0].split("=", 1)[1].split(",")
+            args = args[1:]
         for a in args:
-            print(json.dumps(detect(a)))
+            print(json.dumps(detect(a, checks)), flush=True)
     elif mode == "table":
         table()
